@@ -703,4 +703,468 @@ example : F50K.parse "/12345678\nJOHN DOE\n1 MAIN ST".toList = .ok ⟨some "1234
 example : F59A.parse "/12345678\nCHASUS33".toList = .ok ⟨some "12345678".toList, "CHASUS33".toList⟩ := by decide
 example : F50G.parse "12345678\nCHASUS33".toList = .err := by decide
 
+/-! ### The BIC (`4!a2!a2!c[3!c]`, upper case) — the component shared by all option-A fields, 50C, 50G, 59A, 25P -/
+
+def upperOrDigit (c : Char) : Bool := c.isUpper || c.isDigit
+
+/-- institution (4 letters), country (2 letters), location (2 letters or digits), optional branch (3 letters or digits) -/
+def Doc.Bic (t : Text) : Prop :=
+  ∃ a b c d : Text, t = a ++ b ++ c ++ d ∧ a.length = 4 ∧ a.all Char.isUpper = true ∧ b.length = 2 ∧ b.all Char.isUpper = true ∧
+    c.length = 2 ∧ c.all upperOrDigit = true ∧ (d = [] ∨ (d.length = 3 ∧ d.all upperOrDigit = true))
+
+theorem upper_not_lower (c : Char) (h : c.isUpper = true) : c.isLower = false := by
+  cases hl : c.isLower with
+  | false => rfl
+  | true =>
+    simp only [Char.isUpper, Char.isLower, Bool.and_eq_true, decide_eq_true_eq, UInt32.le_iff_toNat_le] at h hl
+    simp at h hl
+    omega
+
+theorem digit_not_lower (c : Char) (h : c.isDigit = true) : c.isLower = false := by
+  cases hl : c.isLower with
+  | false => rfl
+  | true =>
+    simp only [Char.isDigit, Char.isLower, Bool.and_eq_true, decide_eq_true_eq, UInt32.le_iff_toNat_le] at h hl
+    simp at h hl
+    omega
+
+theorem upper_of_alpha (c : Char) (ha : c.isAlpha = true) (hl : c.isLower = false) : c.isUpper = true := by
+  simp only [Char.isAlpha, Bool.or_eq_true] at ha
+  rcases ha with h | h
+  · exact h
+  · rw [hl] at h; cases h
+
+theorem upperOrDigit_of_alnum (c : Char) (ha : c.isAlphanum = true) (hl : c.isLower = false) : upperOrDigit c = true := by
+  simp only [Char.isAlphanum, Bool.or_eq_true] at ha
+  unfold upperOrDigit
+  rcases ha with h | h
+  · rw [upper_of_alpha c h hl]; rfl
+  · rw [h]; simp
+
+theorem upper_ascii (c : Char) (h : c.isUpper = true) : isAsciiC c = true :=
+  alnum_ascii c (by simp [Char.isAlphanum, Char.isAlpha, h])
+theorem upperOrDigit_ascii (c : Char) (h : upperOrDigit c = true) : isAsciiC c = true := by
+  unfold upperOrDigit at h
+  rcases Bool.or_eq_true _ _ |>.mp h with h | h
+  · exact upper_ascii c h
+  · exact alnum_ascii c (by simp [Char.isAlphanum, h])
+theorem upperOrDigit_alnum (c : Char) (h : upperOrDigit c = true) : c.isAlphanum = true := by
+  unfold upperOrDigit at h
+  rcases Bool.or_eq_true _ _ |>.mp h with h | h
+  · simp [Char.isAlphanum, Char.isAlpha, h]
+  · simp [Char.isAlphanum, h]
+theorem upperOrDigit_not_lower (c : Char) (h : upperOrDigit c = true) : c.isLower = false := by
+  unfold upperOrDigit at h
+  rcases Bool.or_eq_true _ _ |>.mp h with h | h
+  · exact upper_not_lower c h
+  · exact digit_not_lower c h
+
+/-- **`parse_bic` accepts exactly the documented BIC format** and returns the text unchanged. -/
+theorem accepts_iff_bic (t : Text) : (parseBic t).isOk = true ↔ Doc.Bic t := by
+  constructor
+  · intro h
+    unfold parseBic at h
+    split at h; · cases h
+    rename_i hlen
+    split at h; · cases h
+    rename_i hasc
+    split at h; · cases h
+    rename_i h4
+    split at h; · cases h
+    rename_i h2
+    split at h; · cases h
+    rename_i h22
+    split at h; · cases h
+    rename_i h3
+    simp only [Bool.or_eq_true, Bool.not_eq_true', Bool.not_or, Bool.and_eq_true, not_and] at hasc
+    have hascii : isAsciiT t = true := by
+      cases ha : isAsciiT t with
+      | true => rfl
+      | false => simp [ha] at hasc
+    have hnolow : ∀ c ∈ t, c.isLower = false := by
+      intro c hc
+      cases hl : c.isLower with
+      | false => rfl
+      | true =>
+        have : t.any Char.isLower = true := List.any_eq_true.mpr ⟨c, hc, hl⟩
+        simp [hascii, this] at hasc
+    have hbl := blen_ascii t hascii
+    rw [hbl] at hlen h3
+    have hl8 : t.length = 8 ∨ t.length = 11 := by
+      simp only [Bool.and_eq_true, bne_iff_ne, ne_eq, not_and, Decidable.not_not] at hlen
+      by_cases h8 : t.length = 8
+      · exact Or.inl h8
+      · exact Or.inr (hlen h8)
+    have hdecomp : t = t.take 4 ++ (t.drop 4).take 2 ++ (t.drop 6).take 2 ++ t.drop 8 := by
+      have e1 := (List.take_append_drop 4 t).symm
+      have e2 := (List.take_append_drop 2 (t.drop 4)).symm
+      have e3 := (List.take_append_drop 2 (t.drop 6)).symm
+      have d1 : (t.drop 4).drop 2 = t.drop 6 := by rw [List.drop_drop]
+      have d2 : (t.drop 6).drop 2 = t.drop 8 := by rw [List.drop_drop]
+      rw [d1] at e2; rw [d2] at e3
+      calc t = t.take 4 ++ t.drop 4 := e1
+        _ = t.take 4 ++ ((t.drop 4).take 2 ++ t.drop 6) := by rw [← e2]
+        _ = t.take 4 ++ ((t.drop 4).take 2 ++ ((t.drop 6).take 2 ++ t.drop 8)) := by rw [← e3]
+        _ = _ := by simp [List.append_assoc]
+    have mem_take : ∀ (l : Text) n c, c ∈ l.take n → c ∈ l := fun l n c h => List.mem_of_mem_take h
+    have mem_drop : ∀ (l : Text) n c, c ∈ l.drop n → c ∈ l := fun l n c h => List.mem_of_mem_drop h
+    refine ⟨t.take 4, (t.drop 4).take 2, (t.drop 6).take 2, t.drop 8, hdecomp, ?_, ?_, ?_, ?_, ?_, ?_, ?_⟩
+    · rw [List.length_take]; rcases hl8 with h | h <;> omega
+    · rw [List.all_eq_true]; intro c hc
+      have ha : c.isAlpha = true := by
+        have := (List.all_eq_true.mp (by simpa using h4)) c hc; exact this
+      exact upper_of_alpha c ha (hnolow c (mem_take _ _ _ hc))
+    · rw [List.length_take, List.length_drop]; rcases hl8 with h | h <;> omega
+    · rw [List.all_eq_true]; intro c hc
+      have ha : c.isAlpha = true := (List.all_eq_true.mp (by simpa using h2)) c hc
+      exact upper_of_alpha c ha (hnolow c (mem_drop _ _ _ (mem_take _ _ _ hc)))
+    · rw [List.length_take, List.length_drop]; rcases hl8 with h | h <;> omega
+    · rw [List.all_eq_true]; intro c hc
+      have ha : c.isAlphanum = true := (List.all_eq_true.mp (by simpa using h22)) c hc
+      exact upperOrDigit_of_alnum c ha (hnolow c (mem_drop _ _ _ (mem_take _ _ _ hc)))
+    · rcases hl8 with h8 | h11
+      · left; apply List.eq_nil_of_length_eq_zero; rw [List.length_drop]; omega
+      · right
+        refine ⟨by rw [List.length_drop]; omega, ?_⟩
+        rw [List.all_eq_true]; intro c hc
+        have h3' : ((t.drop 8).take 3).all Char.isAlphanum = true := by
+          simp only [Bool.and_eq_true, beq_iff_eq, Bool.not_eq_true', not_and, Bool.not_eq_false] at h3
+          exact h3 h11
+        have htk : (t.drop 8).take 3 = t.drop 8 := by
+          apply List.take_of_length_le; rw [List.length_drop]; omega
+        rw [htk] at h3'
+        exact upperOrDigit_of_alnum c ((List.all_eq_true.mp h3') c hc) (hnolow c (mem_drop _ _ _ hc))
+  · rintro ⟨a, b, c, d, rfl, ha, hau, hb, hbu, hc, hcu, hd⟩
+    have hdl : d.length = 0 ∨ d.length = 3 := by
+      rcases hd with h | h
+      · left; rw [h]; rfl
+      · right; exact h.1
+    have hdu : d.all upperOrDigit = true := by
+      rcases hd with h | h
+      · rw [h]; rfl
+      · exact h.2
+    have hall : ∀ x ∈ a ++ b ++ c ++ d, upperOrDigit x = true := by
+      intro x hx
+      simp only [List.mem_append] at hx
+      rcases hx with ((hx | hx) | hx) | hx
+      · unfold upperOrDigit; rw [(List.all_eq_true.mp hau) x hx]; rfl
+      · unfold upperOrDigit; rw [(List.all_eq_true.mp hbu) x hx]; rfl
+      · exact (List.all_eq_true.mp hcu) x hx
+      · exact (List.all_eq_true.mp hdu) x hx
+    have hascii : isAsciiT (a ++ b ++ c ++ d) = true := by
+      unfold isAsciiT; rw [List.all_eq_true]; intro x hx; exact upperOrDigit_ascii x (hall x hx)
+    have hnl : (a ++ b ++ c ++ d).any Char.isLower = false := by
+      cases hh : (a ++ b ++ c ++ d).any Char.isLower with
+      | false => rfl
+      | true =>
+        obtain ⟨x, hx, hl⟩ := List.any_eq_true.mp hh
+        rw [upperOrDigit_not_lower x (hall x hx)] at hl; cases hl
+    have hlen : (a ++ b ++ c ++ d).length = 8 + d.length := by simp [List.length_append]; omega
+    have t4 : (a ++ b ++ c ++ d).take 4 = a := by
+      rw [List.append_assoc, List.append_assoc, ← ha, List.take_left']; rfl
+    have d4 : (a ++ b ++ c ++ d).drop 4 = b ++ c ++ d := by
+      rw [List.append_assoc, List.append_assoc, ← ha, List.drop_left']; simp; rfl
+    have t42 : ((a ++ b ++ c ++ d).drop 4).take 2 = b := by
+      rw [d4, List.append_assoc, ← hb, List.take_left']; rfl
+    have d6 : (a ++ b ++ c ++ d).drop 6 = c ++ d := by
+      have : (a ++ b ++ c ++ d).drop 6 = ((a ++ b ++ c ++ d).drop 4).drop 2 := by rw [List.drop_drop]
+      rw [this, d4, List.append_assoc, ← hb, List.drop_left']; rfl
+    have t62 : ((a ++ b ++ c ++ d).drop 6).take 2 = c := by
+      rw [d6, ← hc, List.take_left']; rfl
+    have d8 : (a ++ b ++ c ++ d).drop 8 = d := by
+      have : (a ++ b ++ c ++ d).drop 8 = ((a ++ b ++ c ++ d).drop 6).drop 2 := by rw [List.drop_drop]
+      rw [this, d6, ← hc, List.drop_left']; rfl
+    unfold parseBic
+    rw [blen_ascii _ hascii, hlen, hascii, hnl, t4, t42, t62, d8]
+    have a4 : a.all Char.isAlpha = true := by
+      rw [List.all_eq_true]; intro x hx; simp [Char.isAlpha, (List.all_eq_true.mp hau) x hx]
+    have b2 : b.all Char.isAlpha = true := by
+      rw [List.all_eq_true]; intro x hx; simp [Char.isAlpha, (List.all_eq_true.mp hbu) x hx]
+    have c2 : c.all Char.isAlphanum = true := by
+      rw [List.all_eq_true]; intro x hx; exact upperOrDigit_alnum x ((List.all_eq_true.mp hcu) x hx)
+    have d3 : (d.take 3).all Char.isAlphanum = true := by
+      rw [List.all_eq_true]; intro x hx; exact upperOrDigit_alnum x ((List.all_eq_true.mp hdu) x (List.mem_of_mem_take hx))
+    rcases hdl with h0 | h3
+    · simp [h0, a4, b2, c2, d3, Res.isOk]
+    · simp [h3, a4, b2, c2, d3, Res.isOk]
+
+/-- Non-vacuity -/
+example : Doc.Bic "DEUTDEFF".toList := ⟨"DEUT".toList, "DE".toList, "FF".toList, [], by decide⟩
+
+/-! ### The party identifier line `[/1!a][/34x]` in the three spellings the library documents -/
+
+/-- `//34x` (national clearing codes), `/c/34x` or `/cc/34x` (a one- or two-character code), `/34x` (an account) -/
+def Doc.PartyId (l : Text) : Prop :=
+  (∃ sp, l = '/' :: '/' :: sp ∧ Doc.XText 34 sp) ∨
+  (∃ code id, l = '/' :: code ++ '/' :: id ∧ 1 ≤ code.length ∧ code.length ≤ 2 ∧ code.all Char.isAlphanum = true ∧
+    id.length ≤ 34 ∧ id.all isSwiftX = true) ∨
+  (∃ r, l = '/' :: r ∧ Doc.XText 34 r ∧ '/' ∉ r)
+
+theorem alnum_not_slash (c : Char) (h : c.isAlphanum = true) : c ≠ '/' := by
+  intro he; subst he; revert h; decide
+
+theorem all_alnum_ascii (t : Text) (h : t.all Char.isAlphanum = true) : isAsciiT t = true := by
+  unfold isAsciiT; rw [List.all_eq_true] at *; intro c hc; exact alnum_ascii c (h c hc)
+
+theorem alpha_alnum (t : Text) (h : t.all Char.isAlpha = true) : t.all Char.isAlphanum = true := by
+  rw [List.all_eq_true] at *; intro c hc; simp [Char.isAlphanum, h c hc]
+
+theorem findChar_ne_none_of_mem (ch : Char) (t : Text) (hm : ch ∈ t) : findChar ch t ≠ none := by
+  induction t with
+  | nil => cases hm
+  | cons a r ih =>
+    simp only [findChar]
+    split
+    · simp
+    · rename_i hne
+      rcases List.mem_cons.mp hm with he | hm'
+      · subst he; simp at hne
+      · cases hfr : findChar ch r with
+        | none => exact absurd hfr (ih hm')
+        | some k => simp
+
+theorem pid_accepts_iff (l : Text) : (∃ p, parsePartyIdentifier l = .ok (some p)) ↔ Doc.PartyId l := by
+  constructor
+  · rintro ⟨p, h⟩
+    unfold parsePartyIdentifier at h
+    split at h
+    · rename_i special
+      unfold pidSpecial at h
+      split at h
+      · rename_i hc
+        split at h
+        · rename_i hx
+          simp only [Bool.and_eq_true, Bool.not_eq_true', List.isEmpty_eq_false_iff, decide_eq_true_eq] at hc
+          exact Or.inl ⟨special, rfl, xtext_of_checks 34 special hc.2 hc.1 hx⟩
+        · cases h
+      · cases h
+    · rename_i rem hns
+      split at h
+      · rename_i pos hf
+        obtain ⟨hs, hnsl⟩ := findChar_split hf
+        unfold pidCoded at h
+        split at h
+        · rename_i hcond
+          split at h
+          · cases h
+          · rename_i hlen
+            split at h
+            · rename_i hx
+              refine Or.inr (Or.inl ⟨rem.take pos, rem.drop (pos + 1), by rw [List.cons_append]; exact congrArg _ hs, ?_⟩)
+              have halnum : (rem.take pos).all Char.isAlphanum = true ∧ 1 ≤ blen (rem.take pos) ∧ blen (rem.take pos) ≤ 2 := by
+                simp only [Bool.or_eq_true, Bool.and_eq_true, beq_iff_eq, decide_eq_true_eq] at hcond
+                rcases hcond with ⟨h1, h2⟩ | ⟨⟨h1, h2⟩, h3⟩
+                · exact ⟨alpha_alnum _ h2, by omega, by omega⟩
+                · exact ⟨h3, h1, h2⟩
+              have hb := blen_ascii _ (all_alnum_ascii _ halnum.1)
+              have hidl : (rem.drop (pos + 1)).length ≤ 34 := by
+                have := length_le_blen (rem.drop (pos + 1)); omega
+              exact ⟨by omega, by omega, halnum.1, hidl, hx⟩
+            · cases h
+        · cases h
+      · rename_i hf
+        unfold pidPlain at h
+        split at h
+        · rename_i hc
+          split at h
+          · rename_i hx
+            simp only [Bool.and_eq_true, Bool.not_eq_true', List.isEmpty_eq_false_iff, decide_eq_true_eq] at hc
+            refine Or.inr (Or.inr ⟨rem, rfl, xtext_of_checks 34 rem hc.2 hc.1 hx, ?_⟩)
+            intro hm
+            exact findChar_ne_none_of_mem '/' rem hm hf
+          · cases h
+        · cases h
+    · cases h
+  · intro hdoc
+    rcases hdoc with ⟨sp, rfl, hx⟩ | ⟨code, id, rfl, h1, h2, halnum, hidl, hidx⟩ | ⟨r, rfl, hx, hns⟩
+    · obtain ⟨hl, hall⟩ := checks_of_xtext 34 sp hx
+      have hne : sp ≠ [] := by intro he; subst he; have := hx.1; simp at this
+      refine ⟨'/' :: sp, ?_⟩
+      simp [parsePartyIdentifier, pidSpecial, hne, hl, hall]
+    · have hasc := all_alnum_ascii code halnum
+      have hbl := blen_ascii code hasc
+      have hidasc := all_swiftX_ascii id hidx
+      have hidbl := blen_ascii id hidasc
+      have hnsl : ∀ c ∈ code, c ≠ '/' := fun c hc => alnum_not_slash c ((List.all_eq_true.mp halnum) c hc)
+      have hf : findChar '/' (code ++ '/' :: id) = some code.length := by
+        exact findChar_append code id hnsl
+      refine ⟨code ++ '/' :: id, ?_⟩
+      cases code with
+      | nil => simp at h1
+      | cons c0 cr =>
+        have hc0 : c0 ≠ '/' := hnsl c0 (by simp)
+        unfold parsePartyIdentifier
+        split
+        · rename_i special heq
+          simp only [List.cons_append, List.cons.injEq, true_and] at heq
+          exact absurd heq.1 hc0
+        · rename_i rem hns heq
+          simp only [List.cons_append, List.cons.injEq, true_and] at heq
+          subst heq
+          have hf' : findChar '/' (c0 :: (cr ++ '/' :: id)) = some (c0 :: cr).length := by simpa using hf
+          have htk : (c0 :: (cr ++ '/' :: id)).take (c0 :: cr).length = c0 :: cr := by
+            rw [show c0 :: (cr ++ '/' :: id) = (c0 :: cr) ++ '/' :: id by simp, List.take_left']; rfl
+          have hdr : (c0 :: (cr ++ '/' :: id)).drop ((c0 :: cr).length + 1) = id := by
+            rw [show c0 :: (cr ++ '/' :: id) = ((c0 :: cr) ++ ['/']) ++ id by simp,
+                show (c0 :: cr).length + 1 = ((c0 :: cr) ++ ['/']).length by simp, List.drop_left']; rfl
+          have hc2 : (decide (1 ≤ (c0 :: cr).length) && decide ((c0 :: cr).length ≤ 2) && (c0 :: cr).all Char.isAlphanum) = true := by
+            simp only [Bool.and_eq_true, decide_eq_true_eq]; exact ⟨⟨h1, h2⟩, halnum⟩
+          have hpc : pidCoded (c0 :: (cr ++ '/' :: id)) (c0 :: cr).length = .ok (some (c0 :: cr ++ '/' :: id)) := by
+            unfold pidCoded
+            rw [htk, hdr, hbl, hidbl]
+            simp only [hc2, Bool.or_true, if_true]
+            have : ¬ id.length > 34 := by omega
+            simp [this, hidx]
+          rw [hf']
+          exact hpc
+        · rename_i hne
+          exact absurd rfl (hne _)
+    · obtain ⟨hl, hall⟩ := checks_of_xtext 34 r hx
+      have hne : r ≠ [] := by intro he; subst he; have := hx.1; simp at this
+      have hnf : findChar '/' r = none := findChar_none r (fun c hc he => hns (he ▸ hc))
+      refine ⟨r, ?_⟩
+      cases r with
+      | nil => exact absurd rfl hne
+      | cons c0 cr =>
+        have hc0 : c0 ≠ '/' := fun he => hns (by simp [he])
+        unfold parsePartyIdentifier
+        split
+        · rename_i special heq
+          simp only [List.cons.injEq, true_and] at heq
+          exact absurd heq.1 hc0
+        · rename_i rem hnsp heq
+          simp only [List.cons.injEq, true_and] at heq
+          subst heq
+          rw [hnf]
+          simp [pidPlain, hl, hall]
+        · rename_i hne'
+          exact absurd rfl (hne' _)
+
+/-- Non-vacuity: the three spellings -/
+example : Doc.PartyId "//FW021000021".toList := Or.inl ⟨"FW021000021".toList, rfl, by decide, by decide, by decide⟩
+example : parsePartyIdentifier "/C/12345".toList = .ok (some "C/12345".toList) := by decide
+
+/-! ### Option A accepts exactly `[party identifier line] BIC` -/
+
+/-- 52A, 53A, 54A, 55A, 56A, 57A, 58A: an optional party-identifier line, then a BIC -/
+def Doc.OptionA (s : Text) : Prop := Doc.Bic s ∨ ∃ l b, s = l ++ '\n' :: b ∧ Doc.PartyId l ∧ Doc.Bic b
+
+theorem bic_chars (t : Text) (h : Doc.Bic t) : ∀ c ∈ t, upperOrDigit c = true := by
+  obtain ⟨a, b, c, d, rfl, _, hau, _, hbu, _, hcu, hd⟩ := h
+  have hdu : d.all upperOrDigit = true := by
+    rcases hd with h | h
+    · rw [h]; rfl
+    · exact h.2
+  intro x hx
+  simp only [List.mem_append] at hx
+  rcases hx with ((hx | hx) | hx) | hx
+  · unfold upperOrDigit; rw [(List.all_eq_true.mp hau) x hx]; rfl
+  · unfold upperOrDigit; rw [(List.all_eq_true.mp hbu) x hx]; rfl
+  · exact (List.all_eq_true.mp hcu) x hx
+  · exact (List.all_eq_true.mp hdu) x hx
+
+theorem upperOrDigit_not_nl_slash (c : Char) (h : upperOrDigit c = true) : c ≠ '\n' ∧ c ≠ '/' := by
+  constructor <;> (intro he; subst he; revert h; decide)
+
+theorem bic_head_not_slash (t : Text) (h : Doc.Bic t) : t.head? ≠ some '/' := by
+  intro hh
+  cases t with
+  | nil => cases hh
+  | cons a r =>
+    simp only [List.head?_cons, Option.some.injEq] at hh
+    exact (upperOrDigit_not_nl_slash a (bic_chars _ h a (by simp))).2 hh
+
+theorem pid_none_of_head (l : Text) (h : l.head? ≠ some '/') : parsePartyIdentifier l = .ok none := by
+  unfold parsePartyIdentifier
+  split
+  · simp at h
+  · simp at h
+  · rfl
+
+theorem partyId_no_nl (l : Text) (h : Doc.PartyId l) : ∀ c ∈ l, c ≠ '\n' := by
+  intro c hc
+  rcases h with ⟨sp, rfl, hx⟩ | ⟨code, id, rfl, _, _, halnum, _, hidx⟩ | ⟨r, rfl, hx, _⟩
+  · simp only [List.mem_cons] at hc
+    rcases hc with rfl | rfl | hc
+    · decide
+    · decide
+    · exact swiftX_not_nl c (hx.2.2 c hc)
+  · simp only [List.cons_append, List.mem_cons, List.mem_append] at hc
+    rcases hc with rfl | hc | rfl | hc
+    · decide
+    · intro he; subst he; have := (List.all_eq_true.mp halnum) _ hc; revert this; decide
+    · decide
+    · exact swiftX_not_nl c ((List.all_eq_true.mp hidx) c hc)
+  · simp only [List.mem_cons] at hc
+    rcases hc with rfl | hc
+    · decide
+    · exact swiftX_not_nl c (hx.2.2 c hc)
+
+theorem accepts_iff_optA (s : Text) : (OptA.parse s).isOk = true ↔ Doc.OptionA s := by
+  constructor
+  · intro h
+    unfold OptA.parse at h
+    have hj := joinNl_splitNl s
+    split at h
+    · cases h
+    · rename_i l0 rest hsp
+      rw [hsp] at hj
+      split at h
+      · cases h
+      · cases h
+      · rename_i p hp
+        split at h
+        · cases h
+        · rename_i b rest'
+          split at h
+          · rename_i bic hb
+            split at h
+            · rename_i hre
+              have hr' : rest' = [] := by simpa using hre
+              subst hr'
+              refine Or.inr ⟨l0, b, ?_, (pid_accepts_iff l0).mp ⟨p, hp⟩, (accepts_iff_bic b).mp (by rw [hb]; rfl)⟩
+              rw [← hj]; rfl
+            · cases h
+          · cases h
+          · cases h
+      · rename_i hp
+        split at h
+        · rename_i bic hb
+          split at h
+          · rename_i hre
+            have hr' : rest = [] := by simpa using hre
+            subst hr'
+            refine Or.inl ?_
+            have : s = l0 := by rw [← hj]; rfl
+            rw [this]
+            exact (accepts_iff_bic l0).mp (by rw [hb]; rfl)
+          · cases h
+        · cases h
+        · cases h
+  · intro h
+    rcases h with hb | ⟨l, b, rfl, hl, hb⟩
+    · have hnonl : ∀ c ∈ s, c ≠ '\n' := fun c hc => (upperOrDigit_not_nl_slash c (bic_chars s hb c hc)).1
+      have hok := (accepts_iff_bic s).mpr hb
+      unfold OptA.parse
+      rw [splitNl_no_nl s hnonl]
+      simp only [pid_none_of_head s (bic_head_not_slash s hb)]
+      cases hp : parseBic s with
+      | ok bic => simp [Res.isOk]
+      | err => rw [hp] at hok; cases hok
+      | panic => rw [hp] at hok; cases hok
+    · have hnl := partyId_no_nl l hl
+      have hbnl : ∀ c ∈ b, c ≠ '\n' := fun c hc => (upperOrDigit_not_nl_slash c (bic_chars b hb c hc)).1
+      obtain ⟨p, hp⟩ := (pid_accepts_iff l).mpr hl
+      have hok := (accepts_iff_bic b).mpr hb
+      unfold OptA.parse
+      rw [splitNl_append_nl l b hnl, splitNl_no_nl b hbnl]
+      simp only [hp]
+      cases hpb : parseBic b with
+      | ok bic => simp [Res.isOk]
+      | err => rw [hpb] at hok; cases hok
+      | panic => rw [hpb] at hok; cases hok
+
+/-- 50C: a BIC and nothing else (the registry entry is `parseBic` itself) -/
+theorem accepts_iff_50C (s : Text) : (parseBic s).isOk = true ↔ Doc.Bic s := accepts_iff_bic s
+
 end SwiftMT.Props.C05
